@@ -13,6 +13,13 @@
 //!        a run over an always-ready sink, the model (NV.Async.WriteAll) predicts the transfer sizes and
 //!        the sink content of the scripted run from those calls + the sync writer's bytes
 //!
+//!   asam / avcf <data> <cap> <sizes> <with_pending>   the async lazy sam / vcf Reader::read_record until 0 / error vs
+//!        the sync reader on the slice: `<n>/<accessor slices>,..|<bytes consumed>` (the views of C12's samr / vcfr)
+//!   ahdr <fmt> <data> <cap> <sizes> <with_pending>   sam / vcf async header_reader() driven by read_until(LF) until 0:
+//!        `<raw header lines>|<status>|<bytes consumed>` vs the sync adapter; verdict also compares read_header()
+//!   abcf <data> <sizes> <with_pending> <chunk>  a raw BCF record stream through bcf::async::io::Reader::from(AdvReader)
+//!        .read_record until 0 / error vs the sync reader: `<records>:<stop code>` (0 end, 1 UnexpectedEof, 2 InvalidData)
+//!
 //! Poll script: the i-th Ready poll transfers at most sizes[i] bytes (then whole requests); with
 //! <with_pending> = 1 every transfer is preceded by a Pending poll.
 
@@ -497,6 +504,463 @@ pub fn gen_awl(rng: &mut Rng, w: &mut CaseWriter) {
 }
 
 // ---------------------------------------------------------------------------------------------
+// asam / avcf: the async lazy record readers (read the line, then the sync field scanner on the slice)
+
+fn acc(f: impl FnOnce() -> String) -> String {
+    match guarded(std::panic::AssertUnwindSafe(f)) {
+        Outcome::Done(s) => s,
+        Outcome::Panicked(_) => "Panic".into(),
+    }
+}
+
+fn sam_view(x: &noodles_sam::Record) -> String {
+    [
+        acc(|| x.name().map(|s| hex(s)).unwrap_or("_".into())),
+        acc(|| hex(x.cigar().as_ref())),
+        acc(|| hex(x.sequence().as_ref())),
+        acc(|| hex(x.quality_scores().as_ref())),
+        acc(|| hex(x.data().as_ref())),
+    ]
+    .join(":")
+}
+
+fn vcf_view(x: &noodles_vcf::Record) -> String {
+    [
+        acc(|| hex(x.reference_sequence_name().as_bytes())),
+        acc(|| hex(x.ids().as_ref().as_bytes())),
+        acc(|| hex(x.reference_bases().as_bytes())),
+        acc(|| hex(x.alternate_bases().as_ref().as_bytes())),
+        acc(|| hex(x.filters().as_ref().as_bytes())),
+        acc(|| hex(x.info().as_ref().as_bytes())),
+    ]
+    .join(":")
+}
+
+/// one step of the record loop: Some(token) to push, and whether to stop
+fn tab_step(r: std::io::Result<usize>, view: impl FnOnce() -> String) -> (String, bool) {
+    match r {
+        Ok(0) => ("0".into(), true),
+        Ok(n) => (format!("{n}/{}", view()), false),
+        Err(e) => (format!("Err:{}", errkind(&e)), true),
+    }
+}
+
+pub fn run_atab(c: &Case) -> Obs {
+    let sam = c.kind == "asam";
+    let data = c.b(0);
+    let cap = c.u(1) as usize;
+    let sched = Sched::explicit(parse_sizes(&c.args[2]), c.u(3) == 1);
+    let tripped = sched.tripped.clone();
+    let total = data.len();
+    let s = run_guarded(|| {
+        let mut out = Vec::new();
+        let pos;
+        if sam {
+            let mut r = noodles_sam::io::Reader::new(&data[..]);
+            let mut rec = noodles_sam::Record::default();
+            for _ in 0..=total {
+                let (t, stop) = tab_step(r.read_record(&mut rec), || sam_view(&rec));
+                out.push(t);
+                if stop {
+                    break;
+                }
+            }
+            pos = total - r.get_ref().len();
+        } else {
+            let mut r = noodles_vcf::io::Reader::new(&data[..]);
+            let mut rec = noodles_vcf::Record::default();
+            for _ in 0..=total {
+                let (t, stop) = tab_step(r.read_record(&mut rec), || vcf_view(&rec));
+                out.push(t);
+                if stop {
+                    break;
+                }
+            }
+            pos = total - r.get_ref().len();
+        }
+        format!("{}|{pos}", out.join(","))
+    });
+    let src = AdvReader::new(data.clone(), sched);
+    let a = run_guarded(move || {
+        block_on_pool(1, async move {
+            let mut out = Vec::new();
+            let pos;
+            let br = tokio::io::BufReader::with_capacity(cap, src);
+            if sam {
+                let mut r = noodles_sam::r#async::io::Reader::new(br);
+                let mut rec = noodles_sam::Record::default();
+                for _ in 0..=total {
+                    let res = r.read_record(&mut rec).await;
+                    let (t, stop) = tab_step(res, || sam_view(&rec));
+                    out.push(t);
+                    if stop {
+                        break;
+                    }
+                }
+                pos = consumed(r.get_ref());
+            } else {
+                let mut r = noodles_vcf::r#async::io::Reader::new(br);
+                let mut rec = noodles_vcf::Record::default();
+                for _ in 0..=total {
+                    let res = r.read_record(&mut rec).await;
+                    let (t, stop) = tab_step(res, || vcf_view(&rec));
+                    out.push(t);
+                    if stop {
+                        break;
+                    }
+                }
+                pos = consumed(r.get_ref());
+            }
+            format!("{}|{pos}", out.join(","))
+        })
+    });
+    let fmt = if sam { "sam" } else { "vcf" };
+    if tripped.load(Ordering::SeqCst) {
+        return Obs::fail("-", &format!("async-{fmt}-hang"), "poll limit reached");
+    }
+    let obs = format!("sync={s} async={a}");
+    if s != a {
+        return Obs::fail(obs, &format!("async-{fmt}-lazy-record-reader-differs"), format!("sync={s} async={a} data={}", hex(&data)));
+    }
+    Obs::ok(obs, data.len() >= 4 && data.contains(&b'\t'))
+}
+
+/// tab-separated record lines (sam: 11+ fields, vcf: 8+), ASCII, with short lines, blank lines, CRLF,
+/// CRs inside fields, empty fields, a missing final LF
+pub fn gen_atab(rng: &mut Rng, w: &mut CaseWriter) {
+    let sam = rng.chance(1, 2);
+    let mut f = Vec::new();
+    let crlf = rng.chance(1, 3);
+    let dirty = rng.chance(2, 5);
+    let need = if sam { 11 } else { 8 };
+    let lines = rng.below(5);
+    for li in 0..lines {
+        let last = li + 1 == lines;
+        if dirty && rng.chance(1, 10) {
+            f.push(b'\n');
+            continue;
+        }
+        let cols = if dirty {
+            match rng.below(6) {
+                0 => rng.range(1, need as u64 - 1) as usize,
+                1 => need - 1,
+                _ => need + rng.below(4) as usize,
+            }
+        } else {
+            need + rng.below(3) as usize
+        };
+        for ci in 0..cols {
+            if ci > 0 {
+                f.push(b'\t');
+            }
+            let fld: Vec<u8> = match if dirty { rng.below(12) } else { 11 } {
+                0 => Vec::new(),
+                1 => b"a\rb".to_vec(),
+                2 => b".".to_vec(),
+                // a field that is a lone CR: sam only -- for vcf the sync reader's rule changed in /repo fb10cd9
+                // and C12's model of it (imported read-only) still has the old one
+                3 if sam => b"\r".to_vec(),
+                _ => {
+                    let n = rng.range(1, 5) as usize;
+                    (0..n).map(|_| *rng.pick(b"ACGT0123456789*=.;:")).collect()
+                }
+            };
+            f.extend(fld);
+        }
+        if !(last && rng.chance(1, 3)) {
+            if crlf {
+                f.push(b'\r');
+            }
+            f.push(b'\n');
+        }
+    }
+    let (sizes, wp) = gen_script(rng);
+    w.push(if sam { "asam" } else { "avcf" }, vec![hex(&f), gen_cap(rng).to_string(), sizes, wp]);
+}
+
+// ---------------------------------------------------------------------------------------------
+// ahdr: the async sam / vcf header adapter (header_reader() driven by read_until) and read_header
+
+fn sync_raw_lines<R: std::io::BufRead>(r: &mut R) -> (Vec<String>, String) {
+    let mut out = Vec::new();
+    loop {
+        let mut l = Vec::new();
+        match r.read_until(b'\n', &mut l) {
+            Ok(0) => return (out, "Ok".into()),
+            Ok(_) => out.push(hex(&l)),
+            Err(e) => return (out, format!("Err:{}", errkind(&e))),
+        }
+        if out.len() > 4096 {
+            return (out, "TooMany".into());
+        }
+    }
+}
+
+async fn async_raw_lines<R: tokio::io::AsyncBufRead + Unpin>(r: &mut R) -> (Vec<String>, String) {
+    use tokio::io::AsyncBufReadExt;
+    let mut out = Vec::new();
+    loop {
+        let mut l = Vec::new();
+        match r.read_until(b'\n', &mut l).await {
+            Ok(0) => return (out, "Ok".into()),
+            Ok(_) => out.push(hex(&l)),
+            Err(e) => return (out, format!("Err:{}", errkind(&e))),
+        }
+        if out.len() > 4096 {
+            return (out, "TooMany".into());
+        }
+    }
+}
+
+pub fn run_ahdr(c: &Case) -> Obs {
+    let sam = c.args[0] == "sam";
+    let data = c.b(1);
+    let cap = c.u(2) as usize;
+    let sizes = parse_sizes(&c.args[3]);
+    let wp = c.u(4) == 1;
+    let total = data.len();
+    let (s, sh) = {
+        let d1 = data.clone();
+        let lines = run_guarded(move || {
+            if sam {
+                let mut r = noodles_sam::io::Reader::new(&d1[..]);
+                let (hl, st) = sync_raw_lines(&mut r.header_reader());
+                format!("{}|{st}|{}", hl.join(";"), total - r.get_ref().len())
+            } else {
+                let mut r = noodles_vcf::io::Reader::new(&d1[..]);
+                let (hl, st) = sync_raw_lines(&mut r.header_reader());
+                format!("{}|{st}|{}", hl.join(";"), total - r.get_ref().len())
+            }
+        });
+        let d2 = data.clone();
+        let hdr = run_guarded(move || {
+            if sam {
+                let mut r = noodles_sam::io::Reader::new(&d2[..]);
+                match r.read_header() {
+                    Ok(h) => format!("{h:?}@{}", total - r.get_ref().len()),
+                    Err(e) => format!("Err:{}", errkind(&e)),
+                }
+            } else {
+                let mut r = noodles_vcf::io::Reader::new(&d2[..]);
+                match r.read_header() {
+                    Ok(h) => format!("{h:?}@{}", total - r.get_ref().len()),
+                    Err(e) => format!("Err:{}", errkind(&e)),
+                }
+            }
+        });
+        (lines, hdr)
+    };
+    let sched = Sched::explicit(sizes.clone(), wp);
+    let tripped = sched.tripped.clone();
+    let src = AdvReader::new(data.clone(), sched);
+    let a = run_guarded(move || {
+        block_on_pool(1, async move {
+            let br = tokio::io::BufReader::with_capacity(cap, src);
+            if sam {
+                let mut r = noodles_sam::r#async::io::Reader::new(br);
+                let (hl, st) = async_raw_lines(&mut r.header_reader()).await;
+                format!("{}|{st}|{}", hl.join(";"), consumed(r.get_ref()))
+            } else {
+                let mut r = noodles_vcf::r#async::io::Reader::new(br);
+                let (hl, st) = async_raw_lines(&mut r.header_reader()).await;
+                format!("{}|{st}|{}", hl.join(";"), consumed(r.get_ref()))
+            }
+        })
+    });
+    let sched2 = Sched::explicit(sizes, wp);
+    let tripped2 = sched2.tripped.clone();
+    let src2 = AdvReader::new(data.clone(), sched2);
+    let ah = run_guarded(move || {
+        block_on_pool(1, async move {
+            let br = tokio::io::BufReader::with_capacity(cap, src2);
+            if sam {
+                let mut r = noodles_sam::r#async::io::Reader::new(br);
+                match r.read_header().await {
+                    Ok(h) => format!("{h:?}@{}", consumed(r.get_ref())),
+                    Err(e) => format!("Err:{}", errkind(&e)),
+                }
+            } else {
+                let mut r = noodles_vcf::r#async::io::Reader::new(br);
+                match r.read_header().await {
+                    Ok(h) => format!("{h:?}@{}", consumed(r.get_ref())),
+                    Err(e) => format!("Err:{}", errkind(&e)),
+                }
+            }
+        })
+    });
+    let fmt = if sam { "sam" } else { "vcf" };
+    if tripped.load(Ordering::SeqCst) || tripped2.load(Ordering::SeqCst) {
+        return Obs::fail("-", &format!("async-{fmt}-hang"), "poll limit reached");
+    }
+    let obs = format!("sync={s} async={a}");
+    if s != a {
+        return Obs::fail(obs, &format!("async-{fmt}-header-adapter-differs"), format!("sync={s} async={a} data={}", hex(&data)));
+    }
+    if sh != ah {
+        let cut = |x: &str| x.chars().take(160).collect::<String>();
+        return Obs::fail(obs, &format!("async-{fmt}-read-header-differs"), format!("sync={} async={} data={}", cut(&sh), cut(&ah), hex(&data)));
+    }
+    Obs::ok(obs, data.len() >= 4 && data.contains(&b'\n'))
+}
+
+/// header text (prefixed lines, dirty: bare prefix, CR, blank lines, missing LF) followed by records
+pub fn gen_ahdr(rng: &mut Rng, w: &mut CaseWriter) {
+    let sam = rng.chance(1, 2);
+    let mut f = Vec::new();
+    let crlf = rng.chance(1, 3);
+    let dirty = rng.chance(2, 5);
+    let p = if sam { b'@' } else { b'#' };
+    let nh = rng.below(5);
+    for i in 0..nh {
+        if sam {
+            match if dirty { rng.below(6) } else { i.min(2) } {
+                0 => f.extend(b"@HD\tVN:1.6"),
+                1 => f.extend(format!("@SQ\tSN:s{i}\tLN:{}", rng.range(1, 99)).as_bytes()),
+                2 => f.extend(b"@CO\tsome @ text"),
+                3 => f.extend(b"@"),
+                4 => f.extend(b"@XX"),
+                _ => f.extend(b"@CO\t\r"),
+            }
+        } else {
+            match if dirty { rng.below(6) } else if i + 1 == nh { 2 } else { i.min(1) } {
+                0 => f.extend(b"##fileformat=VCFv4.3"),
+                1 => f.extend(format!("##k{i}=v#{}", rng.range(1, 99)).as_bytes()),
+                2 => f.extend(b"#CHROM\tPOS\tID\tREF\tALT\tQUAL\tFILTER\tINFO"),
+                3 => f.extend(b"#"),
+                4 => f.extend(b"##"),
+                _ => f.extend(b"##x=\r"),
+            }
+        }
+        if !(dirty && rng.chance(1, 12)) {
+            if crlf != (dirty && rng.chance(1, 10)) {
+                f.extend(b"\r\n");
+            } else {
+                f.push(b'\n');
+            }
+        }
+        if dirty && rng.chance(1, 15) {
+            f.push(b'\n');
+        }
+    }
+    let nr = rng.below(3);
+    for i in 0..nr {
+        if dirty && rng.chance(1, 6) {
+            f.push(p);
+        }
+        f.extend(format!("r{i}\t4\t*\t0\t255\t*\t*\t0\t0\t*\t*").as_bytes());
+        if !(dirty && rng.chance(1, 8)) {
+            f.push(b'\n');
+        }
+    }
+    let (sizes, wp) = gen_script(rng);
+    w.push("ahdr", vec![(if sam { "sam" } else { "vcf" }).to_string(), hex(&f), gen_cap(rng).to_string(), sizes, wp]);
+}
+
+// ---------------------------------------------------------------------------------------------
+// abcf: the async BCF record framing over a raw (uncompressed) record stream
+
+fn stop_code(e: &std::io::Error) -> String {
+    match e.kind() {
+        std::io::ErrorKind::UnexpectedEof => "1".into(),
+        std::io::ErrorKind::InvalidData => "2".into(),
+        k => format!("E:{k:?}"),
+    }
+}
+
+pub fn run_abcf(c: &Case) -> Obs {
+    let data = c.b(0);
+    let sizes = parse_sizes(&c.args[1]);
+    let with_pending = c.u(2) == 1;
+    let s = run_guarded(|| {
+        let mut r = noodles_bcf::io::Reader::from(std::io::Cursor::new(data.clone()));
+        let mut rec = noodles_bcf::Record::default();
+        let mut n = 0usize;
+        loop {
+            match r.read_record(&mut rec) {
+                Ok(0) => return format!("{n}:0"),
+                Ok(_) => n += 1,
+                Err(e) => return format!("{n}:{}", stop_code(&e)),
+            }
+        }
+    });
+    let sched = Sched::explicit(sizes, with_pending);
+    let tripped = sched.tripped.clone();
+    let src = AdvReader::new(data.clone(), sched);
+    let a = run_guarded(move || {
+        block_on_pool(1, async move {
+            let mut r = noodles_bcf::r#async::io::Reader::from(src);
+            let mut rec = noodles_bcf::Record::default();
+            let mut n = 0usize;
+            loop {
+                match r.read_record(&mut rec).await {
+                    Ok(0) => return format!("{n}:0"),
+                    Ok(_) => n += 1,
+                    Err(e) => return format!("{n}:{}", stop_code(&e)),
+                }
+            }
+        })
+    });
+    if tripped.load(Ordering::SeqCst) {
+        return Obs::fail("-", "async-bcf-hang", "poll limit reached");
+    }
+    let obs = format!("sync={s} async={a}");
+    if s != a {
+        return Obs::fail(obs, "async-bcf-record-framing-differs", format!("sync={s} async={a} data={}", hex(&data)));
+    }
+    Obs::ok(obs, data.len() >= 8)
+}
+
+/// a raw BCF record stream of 0..3 valid records (site buffers that Fields::index accepts), then a
+/// tail: nothing, a partial l_shared, a zero l_shared, a cut anywhere, an over-promising length
+pub fn gen_abcf(rng: &mut Rng, w: &mut CaseWriter) {
+    use noodles_vcf::variant::io::Write as _;
+    let text = crate::c16_fmt::vcf_text(rng, 3, false);
+    let (h, recs) = crate::c16_fmt::parse_vcf(&text);
+    let mut bw = noodles_bcf::io::Writer::from(Vec::new());
+    bw.write_header(&h).unwrap();
+    let hdr = bw.get_ref().len();
+    let mut ends = vec![0usize];
+    for r in &recs {
+        bw.write_variant_record(&h, r).unwrap();
+        ends.push(bw.get_ref().len() - hdr);
+    }
+    let mut data = bw.into_inner()[hdr..].to_vec();
+    match rng.below(7) {
+        0 => {
+            let k = rng.range(1, 3) as usize;
+            data.extend(vec![if rng.chance(1, 2) { 0u8 } else { 7 }; k]);
+        }
+        1 => {
+            data.extend(0u32.to_le_bytes());
+            if rng.chance(1, 2) {
+                data.extend(rng.bytes(5));
+            }
+        }
+        2 => {
+            let k = rng.below(data.len() as u64 + 1) as usize;
+            data.truncate(k);
+        }
+        3 => {
+            // a cut a few bytes after a record boundary
+            let b = *rng.pick(&ends);
+            data.truncate((b + rng.below(12) as usize).min(data.len()));
+        }
+        4 if ends.len() > 1 => {
+            // the last record again with more sample bytes promised than present
+            let (a, b) = (ends[ends.len() - 2], ends[ends.len() - 1]);
+            let mut last = data[a..b].to_vec();
+            let li = u32::from_le_bytes([last[4], last[5], last[6], last[7]]) + rng.range(1, 9) as u32;
+            last[4..8].copy_from_slice(&li.to_le_bytes());
+            data.extend(last);
+        }
+        _ => {}
+    }
+    let n = rng.below(60) as usize;
+    let sizes: Vec<usize> = (0..n).map(|_| *rng.pick(&[1usize, 1, 2, 3, 4, 5, 7, 16, 33, 100])).collect();
+    w.push("abcf", vec![hex(&data), fmt_sizes(&sizes), rng.below(2).to_string(), rng.pick(&[1usize, 7, 32, 4096]).to_string()]);
+}
+
+// ---------------------------------------------------------------------------------------------
 
 pub fn generate(rng: &mut Rng, tier: &str, w: &mut CaseWriter) {
     let thorough = tier == "thorough";
@@ -514,6 +978,18 @@ pub fn generate(rng: &mut Rng, tier: &str, w: &mut CaseWriter) {
     for _ in 0..n {
         gen_awl(rng, w);
     }
+    let n = if thorough { 2000 } else { 150 };
+    for _ in 0..n {
+        gen_abcf(rng, w);
+    }
+    let n = if thorough { 3000 } else { 250 };
+    for _ in 0..n {
+        gen_atab(rng, w);
+    }
+    let n = if thorough { 2000 } else { 150 };
+    for _ in 0..n {
+        gen_ahdr(rng, w);
+    }
 }
 
 pub fn run(c: &Case) -> Option<Obs> {
@@ -522,6 +998,9 @@ pub fn run(c: &Case) -> Option<Obs> {
         "afq" => run_afq(c),
         "afa" => run_afa(c),
         "awl" => run_awl(c),
+        "abcf" => run_abcf(c),
+        "asam" | "avcf" => run_atab(c),
+        "ahdr" => run_ahdr(c),
         _ => return None,
     })
 }
